@@ -124,7 +124,7 @@ def channel(draw, name, kind, allow_child=True, like=None):
 def trees(draw):
     nchan = draw(st.integers(1, 3))
     children = []
-    names = ["chA", "chB", "chC", "zz"]
+    names = ["ch1", "ch10", "chC", "zz"]  # ("ch1" is a character prefix of "ch10": path components, not strings, are what nests)
     for i in range(nchan):
         kind = draw(st.sampled_from(["rf", "rf", "dmd", "dmd", "legacy-rf", "legacy-dmd"]))
         prev = children[-1] if children and children[-1]["kind"] != "plain" and draw(st.integers(0, 2)) == 0 else None
